@@ -133,6 +133,7 @@ def _scat(t, T):
         wkw = dict(wkw, wavelength=t["wavelength_ignored"])      # "If energy is specified then wavelength is ignored"
     via = t.get("via", "formula")
     text = None
+    argkept = None
     if via == "sld-string-table":
         # the compound as text, read with table=T by the calculator itself (neutron_sld route for the SLDs)
         text = str(g)
@@ -149,6 +150,7 @@ def _scat(t, T):
         elif via == "carried":      # a Formula that already carries another density; the keyword must win
             f0 = P.formula(build(t["compound"], T), density=t["carried"])
             res = P.neutron_scattering(f0, **dict(kw, **wkw))
+            argkept = f0.density == t["carried"]        # ... and the caller's object keeps its own density
         elif via == "carried-own":  # a Formula that carries the density, no keyword
             res = P.neutron_scattering(g, **wkw)
         else:                       # "kw": Formula without density, density / natural_density as keyword of the calculator
@@ -159,6 +161,8 @@ def _scat(t, T):
     for i, (lam, E) in enumerate(lams):
         ev = {"ev": "scat", "id": "%s#%d" % (t["id"], i) if vec else t["id"], "ps": ps, "lam": dec.to_dec(lam),
               "out": out7(res, i if vec else None)}
+        if argkept is not None:
+            ev["argkept"] = bool(argkept)
         if "natural_density" in t:
             ev["nd"] = dec.to_dec(t["natural_density"])      # the specification converts it with the natural masses
             ev["rho"] = dec.to_dec(0)
@@ -209,6 +213,7 @@ def _rel(t, T):
         k = t["k"]
         b = call(g0, k, wavelength=lam)
         ev["k"] = dec.to_dec(k)
+        ev["again"] = out7(call(g0, wavelength=lam))       # the first call repeated after the scaled one
     elif rel in ("cell", "regroup", "permute"):
         h = build(t["variant"], T)
         b = call(h, wavelength=lam)
